@@ -468,6 +468,23 @@ fn cpio_sweep(tools: Arc<Tools>) -> Sweep {
         a
     }));
     archives.push(("garbage".into(), vec![0xff; 200]));
+    // name fields made of, or padded with, NUL bytes (dracut pads names; a field can also hold nothing but padding)
+    for (what, name) in [("empty", ""), ("one NUL", "\0"), ("three NULs", "\0\0\0"), ("seven NULs", "\0\0\0\0\0\0\0"), ("the first file's name padded with three NULs", "PAD"), ("a NUL in front of the first file's name", "FRONT"), ("'.' and a NUL", ".\0"), ("'./' and a NUL", "./\0")] {
+        let f0 = &files[0];
+        let nm = match name {
+            "PAD" => format!("{}\0\0\0", f0.cpio_name()),
+            "FRONT" => format!("\0{}", f0.cpio_name()),
+            other => other.to_string(),
+        };
+        let mut a = vec![];
+        vlib::refcpio::write_newc(&mut a, &vlib::refcpio::Newc::file(&nm, f0.mode as u32, 1, &f0.archive_data()));
+        for &i in order.iter().skip(1) {
+            let f = &files[i];
+            vlib::refcpio::write_newc(&mut a, &vlib::refcpio::Newc::file(&f.cpio_name(), f.mode as u32, 1, &f.archive_data()));
+        }
+        vlib::refcpio::write_trailer(&mut a);
+        archives.push((format!("first entry's name field: {}", what), a));
+    }
     // large archives are generated when their case runs (every worker process builds this list at start-up)
     type Gen = Arc<dyn Fn() -> Vec<u8> + Send + Sync>;
     let mut lazy: Vec<(String, Gen)> = vec![];
@@ -611,8 +628,21 @@ fn vocabulary_sweep(tools: Arc<Tools>) -> Sweep {
         values.push((5011, "FILEDIGESTALGO", Some(Val::Int32(vec![a]))));
         values.push((5093, "PAYLOADDIGESTALGO", Some(Val::Int32(vec![a]))));
     }
+    // the digest entries of the main header in other shapes (the header digests are recomputed, so the code behind them is reached)
+    let sha = "0".repeat(64);
+    for v in [Val::StrArray(vec![]), Val::strs(&["", ""]), Val::strs(&[&sha, &sha]), Val::str(&sha), Val::Int32(vec![8]), Val::Bin(vec![0; 32])] {
+        values.push((5092, "PAYLOADDIGEST", Some(v)));
+    }
+    for v in [Val::Int32(vec![]), Val::Int32(vec![8, 8]), Val::str("8"), Val::Int64(vec![8])] {
+        values.push((5093, "PAYLOADDIGESTALGO", Some(v)));
+    }
+    values.push((5092, "PAYLOADDIGEST", None));
+    values.push((5093, "PAYLOADDIGESTALGO", None));
+    for v in [Val::StrArray(vec![]), Val::strs(&[&sha]), Val::Int32(vec![8])] {
+        values.push((5097, "PAYLOADDIGESTALT", Some(v)));
+    }
     let n = (values.len() * payloads.len()) as u64;
-    Sweep::new("tag-vocabulary", format!("a hand-encoded package × one of {} values for a tag whose value selects a code path (compressor names incl. the ones this build has no support for, other spellings, several names, wrong types; payload format; payload flags; encoding; file and payload digest algorithm numbers) × payload bytes that are {{an uncompressed cpio archive, a gzip stream, no archive at all}}: every entry point, no panic / abort / hang", values.len()), n, move |i, acc| {
+    Sweep::new("tag-vocabulary", format!("a hand-encoded package × one of {} values for a tag whose value selects a code path (compressor names incl. the ones this build has no support for, other spellings, several names, wrong types; payload format; payload flags; encoding; file and payload digest algorithm numbers; the payload digest entries with no, two, mistyped items) × payload bytes that are {{an uncompressed cpio archive, a gzip stream, no archive at all}}: every entry point, no panic / abort / hang", values.len()), n, move |i, acc| {
         let (tag, tname, val) = &values[(i / 3) as usize];
         let (pname, pbytes) = &payloads[(i % 3) as usize];
         let mut parts = foreign::package("hand", &files, pbytes.clone(), None, false);
